@@ -161,7 +161,9 @@ type pinTask struct {
 
 func (p *pinTask) Start() { p.started.Add(1); <-p.gate }
 
-var bareSendInPushTask = regexp.MustCompile(`goroutine \d+ \[chan send[^\]]*\]:\n(?:[^\n]*\n){0,8}?[^\n]*tasklane\.\(\*TaskLane\)\.PushTask`)
+// a producer that waits inside PushTask - in a channel send, or in a select whatever its arms are - half a minute after
+// the cancel (the lane's timeout is an hour): "producers blocked in PushTask are released" does not hold for it
+var bareSendInPushTask = regexp.MustCompile(`goroutine \d+ \[(?:chan send|select)[^\]]*\]:\n(?:[^\n]+\n){0,8}?[^\n]*tasklane\.\(\*TaskLane\)\.PushTask`)
 
 // TestProducersRacingAtCancel: the lane's only worker is busy, its queue goroutine holds a task it cannot hand over, the
 // buffer has one to three free slots - and several times as many producers as there are processors, released together,
@@ -227,9 +229,9 @@ func TestProducersRacingAtCancel(t *testing.T) {
 				buf = buf[:runtime.Stack(buf, true)]
 				close(gate)
 				if bareSendInPushTask.Match(buf) {
-					t.Fatalf("round %d (queueSize %d, %d free slots, %d producers): 30 s after the context was cancelled %d PushTask call(s) have not returned; the goroutine dump shows them inside PushTask in a channel send that no cancel can reach", round, q, free, producers, n)
+					t.Fatalf("round %d (queueSize %d, %d free slots, %d producers): 30 s after the context was cancelled %d PushTask call(s) have not returned; the goroutine dump shows them waiting inside PushTask (a channel send or a select that the cancel does not reach; the lane's timeout is an hour)", round, q, free, producers, n)
 				}
-				fmt.Printf("HARNESS-INCONCLUSIVE: %d producers have not returned 30 s after the cancel, but none of them is in a bare channel send inside PushTask\n", n)
+				fmt.Printf("HARNESS-INCONCLUSIVE: %d producers have not returned 30 s after the cancel, but none of them is waiting inside PushTask\n", n)
 				t.Fatalf("harness inconclusive")
 			}
 			close(gate)
